@@ -39,6 +39,10 @@ type misStep struct {
 	ArtIssuer string `json:"art_issuer,omitempty"`
 	ArtStatus string `json:"art_status,omitempty"`
 	ArtSigned bool   `json:"art_signed,omitempty"`
+	// Decoy ("first" | "last"): the response carries a second assertion, which the IdP issued (and signed like the other one) for a
+	// user of another service provider: recipient, audience and subject are that provider's. Whether a response with such a
+	// companion is accepted at all is open; the assertion handed to the application must be the one meant for this SP.
+	Decoy string `json:"companion_assertion_for_another_sp,omitempty"`
 }
 
 const (
@@ -178,6 +182,9 @@ func genMisroute(g *Rng, tier string) *Plan {
 		nc := 1 + g.PickW(4, 1)
 		for q := 0; q < nc; q++ {
 			r, l := variant(g, misACS, w(14, 3, 2, 1))
+			if l != "correct" && recvAt != misACS && g.Bool(0.4) {
+				r = recvAt // the URL the response is received at, which is not the ACS URL (Destination may name it, Recipient may not)
+			}
 			noa := int64(600_000)
 			if l != "correct" && g.Bool(0.4) {
 				noa = -3_600_000 // a confirmation for somebody else that has moreover lapsed: still a confirmation of this assertion
@@ -217,6 +224,17 @@ func genMisroute(g *Rng, tier string) *Plan {
 			spec.Pretty, a.Pretty = true, true
 		}
 		spec.Assertions = []AsrtSpec{a}
+		if g.Bool(0.15) {
+			st.Decoy = Pick(g, "first", "first", "last")
+			other := "https://other-sp.example.net/saml"
+			d := AsrtSpec{ID: fmt.Sprintf("id-foreign-%d", i), NameID: marker("victim", i), NotBefore: i64(-1000), NotOnOrAfter: i64(600_000), Sign: a.Sign, SessionIndex: "si-o",
+				Issuer: idpEntity, Audiences: []string{other + "/metadata"}, Confs: []ConfSpec{{NotOnOrAfter: i64(600_000), Recipient: other + "/acs", InResponseTo: "id-req"}}}
+			if st.Decoy == "first" {
+				spec.Assertions = []AsrtSpec{d, a}
+			} else {
+				spec.Assertions = []AsrtSpec{a, d}
+			}
+		}
 		st.Spec = spec
 		if st.Entry == "artifact" {
 			st.ArtSigned = g.Bool(0.4)
@@ -309,6 +327,9 @@ func execMisroute(t *testing.T, p *Plan) *Result {
 		}
 		advance(50 * time.Millisecond)
 		a := st.Spec.Assertions[0]
+		if st.Decoy == "first" {
+			a = st.Spec.Assertions[1]
+		}
 
 		// ---- oracle from the statement
 		var bad []string // definite reasons to reject
@@ -365,7 +386,7 @@ func execMisroute(t *testing.T, p *Plan) *Result {
 		switch {
 		case len(bad) > 0 || statusBad:
 			expect = "REJECT"
-		case dc:
+		case dc || st.Decoy != "":
 			expect = "DONT_CARE"
 		}
 
@@ -412,6 +433,13 @@ func execMisroute(t *testing.T, p *Plan) *Result {
 		if pan != nil {
 			res.Excluded = "panic (reported under C09)"
 			return res
+		}
+		if st.Decoy != "" {
+			res.probe("companion-assertion-for-another-sp:" + st.Decoy)
+			if as != nil && as.ID != a.ID {
+				res.violate(si, "accepted-misaddressed", "C03/accepted/companion-assertion/"+st.Decoy, "the assertion meant for this SP, or a refusal", "assertion "+as.ID, "recipient and audience are another provider's")
+				return res
+			}
 		}
 		switch expect {
 		case "DONT_CARE":
@@ -466,6 +494,18 @@ func simplifyMisroute(p *Plan) []*Plan {
 			s2.Entry = "xml"
 			c.Steps[i] = mustJSON(s2)
 			out = append(out, c)
+		}
+		if st.Decoy != "" {
+			c := p.Clone()
+			s2 := decode[misStep](raw)
+			keep := 0
+			if s2.Decoy == "first" {
+				keep = 1
+			}
+			s2.Spec.Assertions, s2.Decoy = []AsrtSpec{s2.Spec.Assertions[keep]}, ""
+			c.Steps[i] = mustJSON(s2)
+			out = append(out, c)
+			continue
 		}
 		a := st.Spec.Assertions[0]
 		if a.Encrypt {
